@@ -154,6 +154,12 @@ def main(argv):
     for u, ob, fcs in violations:
         rp = write_replay(prop, u, ob, fcs)
         replay_paths.append(rp)
+        rr = json.load(open(rp)).get("real_code_replay") or {}
+        if rr.get("confirms") is False:
+            # the real code gives the contract's answer on the verifier's input: my environment is wrong, not the repository
+            undecided_reasons.append("%s/%s: counterexample NOT reproduced on the real code (see %s) -- environment/shim suspect" % (u.name, ob.name, rp))
+            log("UNDECIDED property=%s %s/%s: the verifier's counterexample does not reproduce on the real code; see %s" % (prop, u.name, ob.name, rp))
+            continue
         suffix = "" if ob.cex else " no-failing-input-found"
         log("VIOLATION property=%s replay=%s%s" % (prop, rp, suffix))
         log("  obligation %s/%s (%s): %s" % (u.name, ob.name, ob.what, "; ".join(f["desc"] for f in fcs)[:500]))
